@@ -453,9 +453,86 @@ def comma_arms(doc, body, code):
     return arms
 
 
+RUN_ON_CHUNK_EXPECTED = (
+    "{letmutlints=Vec::new();letmuttok_cursor=0;loop{iftok_cursor>=chunk.len(){break;}"
+    "letmatch_len=linter.pattern().matches(&chunk[tok_cursor..],source);ifmatch_len!=0{"
+    "letlint=linter.match_to_lint(&chunk[tok_cursor..tok_cursor+match_len],source);lints.extend(lint);"
+    "tok_cursor+=match_len;}else{tok_cursor+=1;}}lints}")
+
+
+def check_run_on_chunk(files):
+    """pattern_linter.rs: run_on_chunk must be the loop Model/C12Currency.pat_body_go models, and the blanket impl must
+    hand every chunk to it (raises otherwise)"""
+    pl = strip_tests(strip_comments(files["pattern_linter.rs"]))
+    m = re.search(r"pub\s+fn\s+run_on_chunk\s*\([^)]*\)\s*->\s*Vec<Lint>\s*\{", pl)
+    if not m:
+        raise RuntimeError("pattern_linter.rs: fn run_on_chunk not found")
+    body = re.sub(r"\s+", "", pl[m.end() - 1:match_brace(pl, m.end() - 1) + 1])
+    if body != RUN_ON_CHUNK_EXPECTED:
+        raise RuntimeError("pattern_linter.rs: run_on_chunk is not the loop the model has: %s" % body)
+    if not re.search(r"for\s+chunk\s+in\s+document\.iter_chunks\(\)\s*\{\s*lints\.extend\(run_on_chunk\(self,\s*chunk,\s*source\)\);\s*\}", pl):
+        raise RuntimeError("pattern_linter.rs: the blanket impl no longer extends with run_on_chunk(self, chunk, source) per chunk")
+
+
+def match_span_sel(files, ty):
+    """where the lint span of a PatternLinter's match_to_lint comes from: (0, i, 0) = matched_tokens[i].span,
+    (1, a, b) = matched_tokens[a..b].span()? (b = 0: open end).  Raises on any other expression."""
+    for f, code in files.items():
+        code = strip_tests(strip_comments(code))
+        m = re.search(r"impl(?:<[^>]*>)?\s+PatternLinter\s+for\s+%s\b[^{]*\{" % ty, code)
+        if not m:
+            continue
+        impl = code[m.end() - 1:match_brace(code, m.end() - 1) + 1]
+        m = re.search(r"fn\s+match_to_lint\s*\(\s*&self\s*,\s*(\w+)\s*:\s*&\[Token\]\s*,\s*\w+\s*:\s*&\[char\]\s*\)\s*->\s*Option<Lint>\s*\{", impl)
+        if not m:
+            raise RuntimeError("%s: match_to_lint of %s not found" % (f, ty))
+        mt = m.group(1)
+        body = impl[m.end() - 1:match_brace(impl, m.end() - 1) + 1]
+        lits = re.findall(r"\bLint\s*\{", body)
+        if len(lits) != 1:
+            raise RuntimeError("%s: %s::match_to_lint builds %d Lint literals, expected one" % (f, ty, len(lits)))
+        i = body.index(lits[0])
+        lit = body[i:match_brace(body, body.index("{", i)) + 1]
+        m = re.search(r"\bspan\s*(?::\s*([^,]+?))?\s*,", lit)
+        if not m:
+            raise RuntimeError("%s: %s::match_to_lint: no span field" % (f, ty))
+        expr = (m.group(1) or "span").strip()
+
+        def resolve(e, depth=0):
+            e = re.sub(r"\s+", "", e)
+            if depth > 3:
+                raise RuntimeError("%s: %s: span expression too deep" % (f, ty))
+            r = re.fullmatch(r"&?%s\[(\d+)\]\.span" % mt, e)
+            if r:
+                return (0, int(r.group(1)), 0)
+            if re.fullmatch(r"%s\.first\(\)\?\.span" % mt, e):
+                return (0, 0, 0)
+            if re.fullmatch(r"%s\.span\(\)\?" % mt, e):
+                return (1, 0, 0)
+            r = re.fullmatch(r"%s\[(\d+)\.\.(\d*)\]\.span\(\)\?" % mt, e)
+            if r:
+                a, b = int(r.group(1)), int(r.group(2) or 0)
+                if r.group(2) and b <= a:
+                    raise RuntimeError("%s: %s: empty slice %s" % (f, ty, e))
+                return (1, a, b)
+            r = re.fullmatch(r"(\w+)\.span", e)
+            if r:
+                d = re.search(r"let\s+%s\s*=\s*&%s\[(\d+)\]\s*;" % (r.group(1), mt), body)
+                if d:
+                    return (0, int(d.group(1)), 0)
+            if re.fullmatch(r"\w+", e):
+                d = re.findall(r"let\s+%s\s*=\s*([^;]+);" % e, body)
+                if len(d) == 1:
+                    return resolve(d[0], depth + 1)
+            raise RuntimeError("%s: %s::match_to_lint: unknown lint span expression `%s`" % (f, ty, e))
+        return resolve(expr)
+    raise RuntimeError("no PatternLinter impl for %s" % ty)
+
+
 def generate(repo):
     files = rule_files(repo)
     check_merge_macro(files)
+    check_run_on_chunk(files)
     structs, n_pat, n_keys = registry(files, repo)
     # the blanket impl every PatternLinter gets
     pl = files["pattern_linter.rs"]
@@ -531,6 +608,13 @@ def generate(repo):
             "   (0 Remove, 1 ReplaceWith [','], 2 ReplaceWith [',', ' '], 3 InsertAfter [' ']) *)",
             "Definition comma_arms_raw : list (nat * nat * nat * nat * nat * (nat * nat)) := [",
             ";\n".join("  (%d, %d, %d, %d, %d, (%d, %d))" % (a[0], a[1], a[2], a[3], a[4], a[5][0], a[5][1]) for a in c_arms),
+            "]."]
+    merged = [(s_, match_span_sel(files, s_)) for _, _, _, sh, _, subs in rows if sh == "Merge" for s_ in subs]
+    out += ["", "(* the sub-rules of the merge_linters! unions run through the blanket PatternLinter impl (run_on_chunk, pinned by this",
+            "   module); where match_to_lint takes its lint span from: (0, i, 0) = matched_tokens[i].span,",
+            "   (1, a, b) = matched_tokens[a..b].span()? with b = 0 for an open end (matched_tokens[a..] / matched_tokens.span()?) *)",
+            "Definition match_span_raw : list (string * (nat * nat * nat)) := [",
+            ";\n".join('  ("%s", (%d, %d, %d))' % (n, k[0], k[1], k[2]) for n, k in merged),
             "]."]
     out += ["", "(* pattern rules (add_pattern_linter): they run per chunk through the chunk cache *)",
             "Definition pattern_rule_count : nat := %d." % n_pat,
